@@ -582,7 +582,7 @@ func run(c *vf.Ctx) {
 func suite(c *vf.Ctx) {
 	trace := filepath.Join(c.Work, "suite-seq.ndjson")
 	_ = os.Remove(trace)
-	cmd := exec.Command("bash", "-c", fmt.Sprintf(". %s/bin/goenv.sh && cd /repo && VERIF_SEQ_TRACE=%s \"$GO\" test -tags verif -vet=off -count=1 ./state/ ./frame/ ./peering/", vf.VerifRoot, trace))
+	cmd := exec.Command("bash", "-c", fmt.Sprintf(". %s/bin/goenv.sh && cd %s && VERIF_SEQ_TRACE=%s \"$GO\" test -tags verif -vet=off -count=1 ./state/ ./frame/ ./peering/", vf.VerifRoot, vf.RepoRoot, trace))
 	out, err := cmd.CombinedOutput()
 	if err != nil {
 		// the repository's tests failing is not this check's verdict; without a trace the stage cannot run
